@@ -27,7 +27,9 @@ func NewLogHist(b int, m float64, max float64) *LogHist {
 }
 
 func (h *LogHist) bin(x float64) int {
-	return int(h.mOverLogb * math.Log(x))
+	// Floor, not truncation: values just below the first bin must
+	// land in a negative bin (the underflow), not in bin 0.
+	return int(math.Floor(h.mOverLogb * math.Log(x)))
 }
 
 func (h *LogHist) Add(x float64) {
